@@ -84,7 +84,7 @@ let eval dbg be units =
       let (ltbl, lids) = M.loc_add_all [] u.ll in
       let rsec = if u.version <= 4 then r4 else r5 and lsec = if u.version <= 4 then l4 else l5 in
       let asz = n_of_int u.asz in
-      match M.unit_write_lists dbg be u.fmt64 (n_of_int u.version) asz (attrs_of u)
+      match M.unit_write_lists be u.fmt64 (n_of_int u.version) asz (attrs_of u)
               (len_n !rsec) (len_n !lsec) rtbl ltbl with
       | Res.Ok ((rb, ro), (lb, lo)) ->
           rsec := !rsec @ rb; lsec := !lsec @ lb;
@@ -92,12 +92,12 @@ let eval dbg be units =
           List.iter (fun id -> offs := get ro id :: !offs) rids;
           List.iter (fun id -> offs := get lo id :: !offs) lids;
           (* self-check of the spec (what the theorems say), on every generated case: the bytes at the offset
-             decode and resolve to the meaning of the written list unless the known marker clash is present *)
+             decode and resolve to the meaning of the written list *)
           if selfcheck && List.mem u.asz [1; 2; 4; 8] then begin
             let base = S.unit_base (attrs_of u) in
             let chk loc sec o ids lists =
               List.iter2 (fun id l ->
-                if not (u.version <= 4 && S.marker_clashb asz l) then begin
+                begin
                   let bs = S.at_offset (get o id) !sec in
                   let dec = if u.version <= 4 then S.dec4 dbg loc be asz bs else S.dec5 dbg loc be asz bs in
                   match dec, S.meaning_loc asz base l with
@@ -287,19 +287,11 @@ let f8_family (k : bool -> unit_in list -> unit) =
       [ 1; 2; 4; 8 ])
     [ 2; 3; 4; 5 ]
 
-(* Every shard process regenerates the whole stream and the driver keeps only the cases with
-   index mod nshards = shard. Evaluating the model (and printing the case) only for those is a pure
-   optimisation: the driver ignores the strings of the other cases. The counter mirrors the driver's. *)
-let shard, nshards =
-  match Array.to_list Sys.argv with
-  | _ :: "gen" :: _ :: _ :: _ :: a :: b :: _ -> (try int_of_string a, int_of_string b with _ -> 0, 1)
-  | _ -> 0, 1
-let ctr = ref 0
+(* the model is evaluated (and the case printed) only for the cases of this shard *)
 let lazy_emit (emit : emit) (case : unit -> string) (f : unit -> string * string) =
-  (if !ctr mod nshards = shard then begin
-     let c = case () in let (d, r) = f () in emit c d r
-   end else emit "" "" "");
-  incr ctr
+  if Streams.mine () then begin
+    let c = case () in let (d, r) = f () in emit c d r
+  end else Streams.skip ()
 
 let run_case stream emit be units =
   lazy_emit emit (fun () -> case_line stream be units) (fun () -> (eval true be units, eval false be units))
@@ -362,10 +354,22 @@ let () =
         let us = List.init nu (fun _ -> rand_unit ~tame r ~nr:(rand_int r 4) ~nl:(rand_int r 4)) in
         run_case "c16.unit" emit (rand_bool r) us
       done);
-  register "c16.rej" ~doc:"lists the pre-v5 encoding must reject (theorem rejects_v4): plain prefix, then an empty range / offset pair without base / address pair with base / default location; expected = err (ListWrSpec.rejected)"
+  register "c16.rej" ~doc:"lists the pre-v5 writers must reject (theorems rejects_unit_rng/_loc, rejects_bad_address_size): plain prefix, then an empty range / offset pair without base / address pair with base / entry beginning at the all-ones marker / StartLength sum that does not fit / default location; or an address size outside 1..8; expected = err (ListWrSpec.rejected)"
     (fun ~seed ~n emit ->
       let r = mk_rng (seed + 313) in
       let c x = n_of_int x in
+      (* address sizes outside 1..8 with any non-empty table: UnsupportedWordSize before anything is written *)
+      List.iter (fun asz ->
+        List.iter (fun version ->
+          List.iter (fun loc ->
+            let l = gen_list r ~loc ~version ~asz ~hb:false ~wild:true in
+            let u = if loc then { version; fmt64 = false; asz; lp = LpNone; rl = []; ll = [ l ] }
+              else { version; fmt64 = false; asz; lp = LpNone; ll = []; rl = [ List.map range_of_loc l ] } in
+            let exp = "err UnsupportedWordSize" in
+            lazy_emit emit (fun () -> case_line "c16.rej" false [ u ]) (fun () ->
+              if eval true false [ u ] <> exp then begin
+                prerr_endline ("SELFCHECK FAILED (bad address size): " ^ case_line "c16.rej" false [ u ]); exit 3 end;
+              (exp, exp))) [ false; true ]) [ 2; 3; 4 ]) [ 0; 9; 10; 16; 31; 32; 33; 64; 128; 255 ];
       let count = ref 0 in
       while !count < n + 400 do
         let loc = rand_bool r in
@@ -379,18 +383,31 @@ let () =
         let d = if loc then rand_data r else [] in
         let a = S.AConst (n_ (rand_fit r asz)) in
         let v = rand_val r asz in
-        let bad = match rand_int r (if loc then 7 else 6) with
+        let ones = Z.pred (amod asz) in
+        let bad = match rand_int r (if loc then 11 else 10) with
           | 0 -> S.LOffsetPair (n_ v, n_ v, d)
           | 1 -> S.LStartEnd (a, a, d)
           | 2 -> S.LStartLength ((if rand_int r 4 = 0 then S.ASym (c 1, cz_of_int 7) else a), N0, d)
           | 3 | 4 -> if hb then S.LStartEnd (a, S.AConst (n_ (rand_val r asz)), d)
                  else S.LOffsetPair (n_ v, n_ (if Z.equal v max64 then Z.pred v else Z.succ v), d)
           | 5 -> if hb then S.LStartLength (a, c (1 + rand_int r 9), d) else S.LOffsetPair (c 5, c 4, d)
+          (* entries beginning at the all-ones marker *)
+          | 6 -> if hb then S.LOffsetPair (n_ ones, n_ (Z.of_int (rand_int r 0x100)), d)
+                 else S.LStartEnd (S.AConst (n_ ones), S.AConst (n_ (Z.of_int (rand_int r 0x100))), d)
+          | 7 -> if hb then S.LOffsetPair (n_ ones, n_ (rand_val r asz), d)
+                 else S.LStartLength (S.AConst (n_ ones), c (1 + rand_int r 0x100), d)
+          (* sums that do not fit *)
+          | 8 -> let b = rand_val r asz in
+                 S.LStartLength (S.AConst (n_ b), n_ (u64 (Z.add (Z.sub (p2 64) b) (Z.of_int (rand_int r 0x40)))), d)
+          | 9 -> (match rand_int r 3 with
+                  | 0 -> S.LStartLength (S.ASym (c 2, cz_of_z (Z.pred (p2 63))), c (1 + rand_int r 9), d)
+                  | 1 -> S.LStartLength (S.ASym (c 0, cz_of_int (rand_int r 9 - 4)), n_ (p2 63), d)
+                  | _ -> S.LStartLength (S.ASym (c 0, cz_of_z (Z.neg (p2 63))), n_ max64, d))
           | _ -> S.LDefault d in
         let post = if rand_bool r then [] else gen_list r ~loc ~version ~asz ~hb ~wild:true in
         let l = pre @ [ bad ] @ post in
         let aszn = n_of_int asz in
-        match S.rejected hb0 l with
+        match S.rejected aszn hb0 l with
         | Some e when S.plain_until_reject aszn hb0 l ->
             incr count;
             let u = if loc then { version; fmt64 = rand_bool r; asz; lp; rl = []; ll = [ l ] }
